@@ -270,5 +270,7 @@ Proof.
     unfold executed in *. simpl in *.
     unfold aligned in Ha. apply andb_prop in Ha. destruct Ha as [Ha _]. apply andb_prop in Ha. destruct Ha as [Ha1 Ha2].
     apply Nat.eqb_eq in Ha1. apply Nat.eqb_eq in Ha2.
-    unfold lists_ok, leq3. rewrite A2, A3, A4, !app_length. repeat split; auto; lia.
+    unfold lists_ok, leq3. repeat split; auto.
+    + rewrite A2, A3, !app_length. lia.
+    + rewrite A3, A4, !app_length. lia.
 Qed.
